@@ -29,6 +29,8 @@ class FakeSocket:
         self.closed = False
         self.connected_to = None
         self.parsed = []
+        self._granted = []
+        self.held_at_close = None
 
     def _op(self):
         self.ops += 1
@@ -49,7 +51,11 @@ class FakeSocket:
         except eip.FrameError as e:
             self.frame_errors.append(str(e))
             self.parsed.append(None)
+        before = list(self.target.sessions)
         r = self.target.handle(msg)
+        for x in self.target.sessions:
+            if x not in before:
+                self._granted.append(x)
         self.reply = None if r is None else bytes(r)
         return len(msg)
 
@@ -61,7 +67,23 @@ class FakeSocket:
         return r
 
     def close(self):
+        """closing the TCP connection ends the sessions registered over it (and their CIP connections) in the target;
+        what the target still held at that moment is recorded so that a check can require the client to have released it itself"""
         self.closed = True
+        t = self.target
+        mine = [p["session"] for p in self.parsed if p is not None and p["command"] in (0x6F, 0x70, 0x66)] + list(getattr(self, "registered", []))
+        held_s = [x for x in t.sessions if x in self.sessions_seen()]
+        held_c = [c for c, v in t.connections.items() if v["session"] in self.sessions_seen()]
+        self.held_at_close = (list(held_s), list(held_c))
+        if t.reachable:
+            for x in held_s:
+                t.sessions.remove(x)
+            for c in held_c:
+                del t.connections[c]
+
+    def sessions_seen(self):
+        """session handles the target granted over this socket"""
+        return self._granted
 
 
 def make_driver(target, cls=None, path="10.0.0.1", cs=4000, connected=True, tags=None, data_types=None, micro800=False, rev=None, sock=None,
